@@ -36,10 +36,12 @@ type guardEngine struct {
 	p        *Program
 	regexLen map[*ssa.Global]int // package-level regexps: NumSubexp+1
 	keyMemo  map[ssa.Value]string
+	// search helpers that scan a field of their k-th parameter: the field's index
+	searchField map[*ssa.Function]int
 }
 
 func newGuardEngine(p *Program) *guardEngine {
-	g := &guardEngine{p: p, regexLen: map[*ssa.Global]int{}, keyMemo: map[ssa.Value]string{}}
+	g := &guardEngine{p: p, regexLen: map[*ssa.Global]int{}, keyMemo: map[ssa.Value]string{}, searchField: map[*ssa.Function]int{}}
 	g.scanRegexps()
 	return g
 }
@@ -168,6 +170,16 @@ func lenArg(v ssa.Value) ssa.Value {
 		return call.Call.Args[0]
 	}
 	return nil
+}
+
+// safeInt64: the value of an integer constant; a sentinel that equals no small number for
+// nil and non-integer constants (Const.Int64 panics on those).
+func safeInt64(k *ssa.Const) int64 {
+	if k == nil || k.Value == nil || k.Value.Kind() != constant.Int {
+		return -1 << 62
+	}
+	n, _ := constant.Int64Val(k.Value)
+	return n
 }
 
 func constInt(v ssa.Value) (int64, bool) {
@@ -716,7 +728,7 @@ func (g *guardEngine) discharge(s guardSite) string {
 		}
 	}
 	if call, ok := s.idx.(*ssa.Call); ok && !s.idxIsBound {
-		if k, ok := g.indexResultOver(call); ok && k < len(call.Call.Args) && (call.Call.Args[k] == x || g.same(call.Call.Args[k], x)) && g.intMinFrom(call, s.ins.Block(), -1) >= 0 {
+		if k, ok := g.indexResultOver(call); ok && k < len(call.Call.Args) && g.searchedIs(call, k, x) && g.intMinFrom(call, s.ins.Block(), -1) >= 0 {
 			return "index returned by a search helper over the same slice, used only where it is >= 0"
 		}
 	}
@@ -1451,6 +1463,12 @@ func (g *guardEngine) intMinFrom(n ssa.Value, b *ssa.BasicBlock, floor int64) in
 func (g *guardEngine) dischargeBySymLen(s guardSite) string {
 	n := g.symLen(s.x, 0)
 	if n == nil {
+		// a field that was last assigned a slice of known length before the site
+		if st := g.dominatingFieldStore(s, s.x); st != nil {
+			n = g.symLen(st.Val, 0)
+		}
+	}
+	if n == nil {
 		return ""
 	}
 	if s.idx == nil {
@@ -1565,6 +1583,15 @@ func (g *guardEngine) indexResultOver(call *ssa.Call) (int, bool) {
 		}
 		par, ok := lenSlice(bound).(*ssa.Parameter)
 		if !ok {
+			// a loop over a field of a parameter (a method searching its receiver's list)
+			if fa := fieldAddrOf(lenSlice(bound)); fa != nil {
+				if fp, isPar := fa.X.(*ssa.Parameter); isPar {
+					par, ok = fp, true
+					g.searchField[callee] = fa.Field
+				}
+			}
+		}
+		if !ok {
 			return 0, false
 		}
 		idx := -1
@@ -1590,7 +1617,7 @@ func (g *guardEngine) validIndexExists(s guardSite, x ssa.Value) bool {
 			if !ok || !instrDominates(call, s.ins) {
 				continue
 			}
-			if k, ok := g.indexResultOver(call); ok && k < len(call.Call.Args) && (call.Call.Args[k] == x || g.same(call.Call.Args[k], x)) && g.intMinFrom(call, s.ins.Block(), -1) >= 0 {
+			if k, ok := g.indexResultOver(call); ok && k < len(call.Call.Args) && g.searchedIs(call, k, x) && g.intMinFrom(call, s.ins.Block(), -1) >= 0 {
 				return true
 			}
 		}
@@ -1808,4 +1835,15 @@ func nonNegInt(v ssa.Value, depth int, seen map[ssa.Value]bool) bool {
 		return n > 0
 	}
 	return false
+}
+
+// searchedIs: x is the list that the search helper called by call scans: its k-th argument,
+// or - for a helper that scans a field of its k-th parameter - that field of the argument.
+func (g *guardEngine) searchedIs(call *ssa.Call, k int, x ssa.Value) bool {
+	arg := call.Call.Args[k]
+	if f, ok := g.searchField[call.Call.StaticCallee()]; ok {
+		fa := fieldAddrOf(x)
+		return fa != nil && fa.Field == f && (fa.X == arg || g.same(fa.X, arg))
+	}
+	return arg == x || g.same(arg, x)
 }
